@@ -141,3 +141,56 @@ Example C10_tcp_pool_example :
   tcp_wk src_hash 2 tcpA1 = 1%nat /\ tcp_wk src_hash 2 tcpB1 = 0%nat /\
   map up_freq (map snd (couts tcp_event Uptime.connection_key tcp_result tcp_state x)) = [None; None; Some 1000%Z; Some 100%Z].
 Proof. exact tcp_pool_example. Qed.
+
+(* ---------------------------------------------------------------- HTTP pool (Model/HttpGlue.v http_pool_run):
+   workers run the packet-level HTTP analyzer model on private flow tables; dispatch = the real HTTP flow hash
+   (endpoints ordered before hashing).  Key = the connection (both directions).  Parsers: any pure functions. *)
+From HN Require Import Base.Cache Model.HttpFlow Model.HttpAnalyzer Model.HttpGlue Proofs.HttpInstances Proofs.HttpExamples.
+From HN Require Model.HttpRecog.
+
+Theorem C10_http_dispatch_by_key : forall (SipH : ident -> N) (n : N) (p q : bytes),
+  0 < n -> pool_dom p = true -> pool_dom q = true -> http_key p = http_key q ->
+  http_worker SipH n p = http_worker SipH n q /\ exists w, http_worker SipH n p = Some w /\ w < n.
+Proof. exact http_dispatch_by_key. Qed.
+Check C10_http_dispatch_by_key : forall (SipH : ident -> N) (n : N) (p q : bytes),
+  0 < n -> pool_dom p = true -> pool_dom q = true -> http_key p = http_key q ->
+  http_worker SipH n p = http_worker SipH n q /\ exists w, http_worker SipH n p = Some w /\ w < n.
+Print Assumptions C10_http_dispatch_by_key.
+
+Theorem C10_http_pool_concrete :
+  forall (Req Resp : Type) (parse_req : bytes -> option Req) (parse_resp : bytes -> option Resp)
+         (SipH : ident -> N) (n capw caps : N) (es : list (ev bytes)),
+  let x := http_pool_run parse_req parse_resp SipH n capw es in
+  0 < n -> (forall f, In f (dispatched bytes es) -> pool_dom f = true) ->
+  http_pool_withinb parse_req parse_resp SipH n capw es = true ->
+  http_within_capacityb parse_req parse_resp (cache_new caps) (dispatched bytes es) = true ->
+  (forall w, cq bytes fkey (@http_out Req Resp) http_state x w = []) ->
+  (forall K, proj fkey (@http_out Req Resp) fkey_eqb K (couts bytes fkey (@http_out Req Resp) http_state x)
+             = proj fkey (@http_out Req Resp) fkey_eqb K (http_results parse_req parse_resp (cache_new caps) (dispatched bytes es)))
+  /\ Permutation (couts bytes fkey (@http_out Req Resp) http_state x)
+                 (http_results parse_req parse_resp (cache_new caps) (dispatched bytes es)).
+Proof. exact @http_pool_concrete. Qed.
+Check C10_http_pool_concrete :
+  forall (Req Resp : Type) (parse_req : bytes -> option Req) (parse_resp : bytes -> option Resp)
+         (SipH : ident -> N) (n capw caps : N) (es : list (ev bytes)),
+  let x := http_pool_run parse_req parse_resp SipH n capw es in
+  0 < n -> (forall f, In f (dispatched bytes es) -> pool_dom f = true) ->
+  http_pool_withinb parse_req parse_resp SipH n capw es = true ->
+  http_within_capacityb parse_req parse_resp (cache_new caps) (dispatched bytes es) = true ->
+  (forall w, cq bytes fkey (@http_out Req Resp) http_state x w = []) ->
+  (forall K, proj fkey (@http_out Req Resp) fkey_eqb K (couts bytes fkey (@http_out Req Resp) http_state x)
+             = proj fkey (@http_out Req Resp) fkey_eqb K (http_results parse_req parse_resp (cache_new caps) (dispatched bytes es)))
+  /\ Permutation (couts bytes fkey (@http_out Req Resp) http_state x)
+                 (http_results parse_req parse_resp (cache_new caps) (dispatched bytes es)).
+Print Assumptions C10_http_pool_concrete.
+
+(* satisfiable: two workers; A's request segments AND its response (opposite direction) reach worker 1, B worker 0 *)
+Example C10_http_pool_example :
+  let x := http_pool_run HttpRecog.recog_req HttpRecog.recog_resp src_hash 2 8 http_sched in
+  0 < 2 /\ (forall f, In f (dispatched bytes http_sched) -> pool_dom f = true) /\
+  http_pool_withinb HttpRecog.recog_req HttpRecog.recog_resp src_hash 2 8 http_sched = true /\
+  http_within_capacityb HttpRecog.recog_req HttpRecog.recog_resp (cache_new 8) (dispatched bytes http_sched) = true /\
+  (forall w, cq bytes fkey (@http_out bytes bytes) http_state x w = []) /\
+  http_wk src_hash 2 hA_syn = 1%nat /\ http_wk src_hash 2 hA_resp = 1%nat /\ http_wk src_hash 2 hB_syn = 0%nat /\
+  map hkind (map snd (couts bytes fkey (@http_out bytes bytes) http_state x)) = [0; 1; 0; 0; 1; 2].
+Proof. exact http_pool_example. Qed.
